@@ -226,6 +226,8 @@ impl<F: Float + SampleUniform + std::fmt::Debug, T: Hash, H: Hasher + Default>
                     self.b[j_2] -= 1;
                     self.b[j] += 1;
                     while self.b[self.a_upper] == 0 {
+                        #[cfg(feature = "verif_hooks")]
+                        crate::verif::tick(crate::verif::Event::SmhUpperDecrease);
                         self.a_upper -= 1;
                     } // end if j < j_2
                     log::trace!(
